@@ -159,7 +159,8 @@ func (queue *FileQueue) checkFile() error {
 		offset, err := queue.scanFile(queue.path(), queue.Offset)
 		if err == nil || err == ErrEOF {
 			queue.Offset = offset
-			return nil
+			// drop the damaged tail, the next record will be written here
+			return os.Truncate(filePath, offset)
 		} else {
 			return err
 		}
@@ -199,6 +200,11 @@ func (queue *FileQueue) scanFile(filePath string, offset int64) (int64, error) {
 	for {
 		head, body, err := FileUtilsRead(file, queue.Offset)
 		if err == io.EOF {
+			return queue.Offset, ErrEOF
+		}
+		if err == ErrRecordDamaged {
+			// The process died while it was writing this record. The write was never acknowledged, so the log ends here
+			log.Warnf("the tail of %s is damaged, ignore it. offset: %d", filePath, queue.Offset)
 			return queue.Offset, ErrEOF
 		}
 
